@@ -147,7 +147,10 @@ def gate_oracle(c, toks):
             # element with a LARGER key inserted in between is walked over as well, so count may exceed the number of equal keys
             # while other keys are being inserted.  The property promises that count is safe and that completed inserts are
             # found, not that count is exact under concurrent inserts of other keys: no upper bound for the ordered multi container.
-            hi = started(k) if kind != 3 else 10 ** 9
+            # concurrent_unordered_multiset::count is std::distance over an equal_range whose end was fixed earlier (possibly end()):
+            # nodes of other keys linked in behind the range in the meantime are counted too — same reasoning, no upper bound
+            # for any multi container (found by the thorough tier on the unchanged tree; corrected, see DESIGN.md section 7).
+            hi = started(k) if not multi else 10 ** 9
             if not (done(k) <= res <= hi):
                 return ("assoc-count", "%s: T%d count(%d) = %d, but %d insert(s) had completed before it began and %d had started before it ended" % (d, tid, k, res, done(k), started(k)))
         else:
